@@ -8,11 +8,14 @@ ex = Executor()
 t0 = time.time()
 rep = ex.generate(sys.argv[1])
 print(rep.status, rep.reason, 'paths', rep.paths, 'obls', len(rep.obligations), 'gen %.1fs' % (time.time() - t0))
+pat = [a[2:] for a in sys.argv if a.startswith('k=')]
+if pat:
+    rep.obligations = [o for o in rep.obligations if any(p_ in o.id for p_ in pat)]
 t0 = time.time()
 backend.solve_all(rep.obligations, timeout_ms=int(os.environ.get('TO', '20000')))
 for ob in rep.obligations:
     if ob.result['status'] != 'unsat' or '-v' in sys.argv:
-        print(ob.result['status'], ob.result.get('backend'), '%.2f' % ob.result['time'], ob.id, 'L%s' % ob.lineno, '|', ob.info.get('claim', '')[:90])
-        if ob.result['status'] == 'sat':
+        print(ob.result['status'], ob.result.get('backend'), ob.result.get('variant'), [(t['backend'], t['status'], round(t['time'],1)) for t in ob.result.get('tried', [])], '%.2f' % ob.result['time'], ob.id, 'L%s' % ob.lineno, '|', ob.info.get('claim', '')[:90])
+        if ob.result['status'] == 'sat' and '-m' in sys.argv:
             print('   MODEL', (ob.result.get('model') or '')[:600])
 print('solve %.1fs' % (time.time() - t0), 'all unsat' if all(o.result['status'] == 'unsat' for o in rep.obligations) else 'NOT ALL')
